@@ -61,6 +61,10 @@ CONFIGS = {
         "outline": [dict(MaxItems=5, Targets='{"Dest", "none"}'), dict(MaxItems=4, Targets='{"Dest", "A", "none"}')],
         "text": [dict(name="bom", Alphabet="<- Alpha16", MaxLen=5, Prefixes="<- BomPrefix"),
                  dict(name="any", Alphabet="<- AlphaDoc", MaxLen=4, Prefixes="<- NoPrefix")],
+        "pagelabels": [dict(name="flat", N=6, K=5, E=5, Attrs="<- NoAttrs", Inheritable="<- NoAttrs", OwnSets="<- AllOwnSets", CatAttrs="<- NoAttrs",
+                            RootKinds='{"Pages"}', Kinds='{"Page"}', AllowBack="FALSE", PageNoSets="<- PN_Sub5", MaxPagesSet="{0, 1, 2, 3, 4, 5}"),
+                       dict(name="tree", N=4, K=3, E=3, Attrs="<- NoAttrs", Inheritable="<- NoAttrs", OwnSets="<- AllOwnSets", CatAttrs="<- NoAttrs",
+                            RootKinds='{"Pages"}', Kinds='{"Pages", "Page", "Other"}', AllowBack="TRUE", PageNoSets="<- PN_Sub3", MaxPagesSet="{0, 1, 2}")],
         "dumpoutline": [dict(P=2)],
         "dumpxml": [dict(name="values", Docs="<- OneObject", Codecs="<- AllCodecs"),
                     dict(name="loop", Docs="<- LoopDocsSmall", Codecs="<- AllCodecs")],
@@ -82,6 +86,10 @@ CONFIGS = {
         "outline": [dict(MaxItems=6, Targets='{"Dest", "none"}'), dict(MaxItems=5, Targets='{"Dest", "A", "none"}')],
         "text": [dict(name="bom", Alphabet="<- Alpha16", MaxLen=6, Prefixes="<- BomPrefix"),
                  dict(name="any", Alphabet="<- AlphaDocWide", MaxLen=4, Prefixes="<- NoPrefix")],
+        "pagelabels": [dict(name="flat", N=7, K=6, E=6, Attrs="<- NoAttrs", Inheritable="<- NoAttrs", OwnSets="<- AllOwnSets", CatAttrs="<- NoAttrs",
+                            RootKinds='{"Pages"}', Kinds='{"Page"}', AllowBack="FALSE", PageNoSets="<- PN_Sub6", MaxPagesSet="{0, 1, 2, 3, 4, 5, 6}"),
+                       dict(name="tree", N=5, K=3, E=4, Attrs="<- NoAttrs", Inheritable="<- NoAttrs", OwnSets="<- AllOwnSets", CatAttrs="<- NoAttrs",
+                            RootKinds='{"Pages"}', Kinds='{"Pages", "Page", "Other"}', AllowBack="TRUE", PageNoSets="<- PN_Sub3", MaxPagesSet="{0, 1, 2, 3}")],
         "dumpoutline": [dict(P=3)],
         "dumpxml": [dict(name="values", Docs="<- OneObject", Codecs="<- AllCodecs"),
                     dict(name="loop", Docs="<- LoopDocs", Codecs="<- AllCodecs")],
@@ -206,7 +214,7 @@ def fan_out(ck, kind, items, replay_of):
     return drift
 
 
-def spec_job(tmp, module, consts, invariants, properties, actions, label, emit, dev=(), coverage=False):
+def spec_job(tmp, module, consts, invariants, properties, actions, label, emit, dev=(), coverage=False, specdir=None):
     """TLC on one configuration: the intended model (Dev = {}) with the invariants, and - when deviations are in force
     - the as-coded one, whose terminal states are emitted.  Runs in a worker thread: touches nothing shared.
     -> dict(runs=[(res, label)], recs | None, violated=(key, what, text) | None, need=actions)"""
@@ -220,7 +228,7 @@ def spec_job(tmp, module, consts, invariants, properties, actions, label, emit, 
         cfg = write_cfg(os.path.join(tmp, "c17_%s_%s.cfg" % (label.replace(" ", "_").replace('"', "").replace("{", "").replace("}", "").replace(",", ""), which)),
                         constants=c, invariants=invariants, properties=properties,
                         constraints=["EmitTerminal"] if emitting else [], deadlock=True)
-        res = run_tlc(os.path.join(NAV, module + ".tla"), cfg, emit=emit if emitting else None,
+        res = run_tlc(os.path.join(specdir or NAV, module + ".tla"), cfg, emit=emit if emitting else None,
                       coverage=coverage and which == "intended", workers=4, timeout=7200, env={"JAVA_TOOL_OPTIONS": "-Xss16m"})
         out["runs"].append((res, "%s %s Dev=%s" % (label, which, dv)))
         if not res.ok:
@@ -432,6 +440,44 @@ def eval_text(rec, i):
     return findings, drift, 1, bool(rec["claimed"] and len(data) > 2), sample
 
 
+# ================================================================================================ labels of selected pages
+def eval_pagelabels(rec, i):
+    """one terminal state of specs/pages/PageTree.tla (document graph x page_numbers x maxpages), realised with a
+    /PageLabels tree: a page carries the label of its zero-based index in document order, also when get_pages
+    leaves pages out"""
+    from ..realise import pagetree as RT
+    findings = []
+    variant = i % 2
+    data, meta = RT.realise(rec["g"], rec["cat"], (), variant, i % 7, labels=True)
+    pagenos, maxpages = sorted(rec["pagenos"]), rec["maxpages"]
+    detail = "graph %s page_numbers=%s maxpages=%d (variant %d)" % (json.dumps([[n["kind"], n["kids"]] for n in rec["g"]]), pagenos, maxpages, variant)
+    ok, pages = guarded("PDFPage.create_pages", lambda: list(OB.PDFPage.create_pages(OB.open_doc(data))), findings, detail)
+    if not ok:
+        return findings, 0, 1, False, None
+    want_all = [RT.label_of_index(p["lab"]) for p in rec["ref"]]
+    got_all = [p.label for p in pages]
+    if len(pages) == len(rec["ref"]) and got_all != want_all:
+        findings.append(("label:page-index", "create_pages labels the pages %s, label(i) of their indices is %s (%s)" % (got_all, want_all, detail)))
+    index_of = {p.pageid: n for n, p in enumerate(pages)}
+    pn_arg = (set(pagenos) if variant == 0 else list(pagenos)) if pagenos else None
+    ok, sel = guarded("PDFPage.get_pages", lambda: list(OB.PDFPage.get_pages(BytesIO(data), pn_arg, maxpages=maxpages)), findings, detail)
+    if ok:
+        for p in sel:
+            orig = index_of.get(p.pageid)
+            if orig is not None and p.label != RT.label_of_index(orig):
+                findings.append(("label:original-index", "get_pages(page_numbers=%s, maxpages=%d) yields the page of index %d with label %r, "
+                                 "label(%d) is %r (%s)" % (pagenos, maxpages, orig, p.label, orig, RT.label_of_index(orig), detail)))
+                break
+        # the machine's bookkeeping (which label each yielded page carries) against the code
+        if [index_of.get(p.pageid) for p in sel] == rec["yielded"] and [p.label for p in sel] != [RT.label_of_index(x) for x in rec["ylabs"]]:
+            findings.append(("label:original-index", "labels of the yielded pages %s differ from the model's %s (%s)"
+                             % ([p.label for p in sel], [RT.label_of_index(x) for x in rec["ylabs"]], detail)))
+    dropped = len(rec["refsel"]) != len(rec["ref"])
+    sample = {"graph": [[n["kind"], n["kids"]] for n in rec["g"]], "page_numbers": pagenos, "maxpages": maxpages,
+              "labels_of_yielded_pages": [p.label for p in sel] if ok else None, "expected": [RT.label_of_index(x) for x in rec["refsel"]]} if i % 499 == 0 else None
+    return findings, 0, 1, dropped and len(rec["refsel"]) > 0, sample
+
+
 # ================================================================================================ tools/dumppdf.py
 def extended(findings, key, what):
     """a difference outside C17's statement: reported as NOTE (extended coverage), never as a violation"""
@@ -555,7 +601,7 @@ def eval_dumpxml(rec, i):
     return findings, drift, 1, len(doc["xrefs"]) > 1, sample
 
 
-_EVAL = {"dumpoutline": eval_dumpoutline, "dumpxml": eval_dumpxml, "numtree": eval_numtree, "labels": eval_labels, "dests": eval_dests, "outline": eval_outline, "text": eval_text}
+_EVAL = {"pagelabels": eval_pagelabels, "dumpoutline": eval_dumpoutline, "dumpxml": eval_dumpxml, "numtree": eval_numtree, "labels": eval_labels, "dests": eval_dests, "outline": eval_outline, "text": eval_text}
 
 
 # ================================================================================================ direction A
@@ -598,6 +644,14 @@ def direction_a(ck, dev):
             submit("text", "text:" + name, "MC_TextString", c, ["DecodeRule"], ["ModeStable", "Progress"],
                    ["TBomTest", "TUnit", "TEnd"] + (["TOddTail"] if name == "bom" else ["TDocByte"]),
                    "text strings " + name, os.path.join(ck.tmp, "tx%d.ndjson" % n), dev=None, coverage=quick)
+        pdev = [d for d in active("pages") if d in ("ContinueSkipsMax", "CatalogInherits")]
+        for n, c in enumerate(conf["pagelabels"]):
+            c = dict(c)
+            name = c.pop("name")
+            submit("pagelabels", "pagelabels:" + name, "MC_PageTree", c,
+                   ["TypeOK", "DFSOrder", "VisitedOnce", "Selection", "SelectionSane", "LabelByIndex"], ["Progress"],
+                   ["AReveal", "AEnterPages", "AEnterPage", "ALoopKid", "ALoopEnd", "ASelSkip", "ASelYield"], "labels of selected pages " + name,
+                   os.path.join(ck.tmp, "pl%d.ndjson" % n), dev=pdev, coverage=quick, specdir=os.path.join(SPECS, "pages"))
         xdev = [d for d in active("dump") if d in DUMP_DEVS]
         for n, c in enumerate(conf["dumpoutline"]):
             submit("dumpoutline", "dumpoutline", "MC_DumpPdf", c, ["Resolution", "NeverWrongPage", "RunShape"], ["Progress"],
@@ -835,6 +889,11 @@ def direction_b(ck, dev):
     ck.extra["dumppdf_recorded_objects_given_to_the_model"] = sum(len(dm["objs"]) for dct in ddocs for dm in dct["dumps"])
     ck.extra["dumppdf_recorded_objects_not_given"] = sum(dm["skipped"] for dct in ddocs for dm in dct["dumps"])
     ck.extra["dumppdf_documents_outside_domain"] = doutside
+    hit = sorted({dct["name"] for dct in ddocs for it, o in zip(dct["outline"]["items"], dct["outline"]["out"])
+                  if it["a"]["k"] == "ref" and it["dest"]["k"] == "none" and o["pageno"] == 0 and dct["name"].startswith("sample:")})
+    if hit:
+        ck.extra["samples_whose_outline_loses_page_numbers_to_indirect_actions"] = hit
+        note_extended(ck, "IndirectActionIgnored@samples", "dumpoutline writes no page number for the items of %s: their /A is an indirect reference" % ", ".join(hit))
     smp = [dct for dct in docs if dct["name"].startswith("sample:") and dct["labels"]]
     if smp:
         ck.sample({"trace": smp[0]["name"], "labels": smp[0]["labels"][0]["out"][:8], "outline": [o["out"][:3] for o in smp[0]["outlines"]],
